@@ -126,6 +126,18 @@
 
 (func $runtime.Block.HeapAlloc (export "runtime.Block.HeapAlloc") (param $item_count i32) (param $release_func i32) (param $item_size i32) (result i32 i32) ;;result = ptr_block, ptr_data
   (local $b i32)
+  ;; item_count*item_size+16 不能超出 32 位 (否则分配的块比请求的小)
+  local.get $item_count
+  i64.extend_i32_u
+  local.get $item_size
+  i64.extend_i32_u
+  i64.mul
+  i64.const 4294967279 ;; 2^32-17
+  i64.gt_u
+  if
+    unreachable
+  end
+
   local.get $item_count
   local.get $item_size
   i32.mul
